@@ -510,6 +510,9 @@ def gen_ports(rng, k):
         s = rng.random() < 0.5
         for p in ports:
             p.signed = s                              # all signed / all unsigned: signed context survives
+    for p in ports:
+        if p.width == 1:
+            p.signed = False      # recorded finding: Cranelift leaves a 1-bit output unmasked after a signed 1-bit operand
     return ports
 
 
@@ -622,6 +625,14 @@ def gen_expr(rng, ports, depth, ops=None, wide_ctx=True):
             # recorded finding: compile-time ?: extends a signed-signed selection by its own type
             # even inside an unsigned context; `{y}` makes the selection unsigned everywhere
             y = ("cat", [y])
+
+        def one_bit(e):
+            return (e[0] == "bin" and (e[1] in REL or e[1] in LOGIC)) or (e[0] == "un" and e[1] in REDUCE)
+        # recorded finding: Cranelift panics on a ?: arm that is itself a comparison / logical result
+        if one_bit(x):
+            x = ("cat", [x])
+        if one_bit(y):
+            y = ("cat", [y])
         return ("cond", c, x, y)
     if r < 0.27:
         return ("cat", [gen_expr(rng, ports, depth - 1, ops, wide_ctx) for _ in range(rng.randrange(1, 4))])
@@ -629,7 +640,13 @@ def gen_expr(rng, ports, depth, ops=None, wide_ctx=True):
     op = rng.choice(pool)
     x = gen_expr(rng, ports, depth - 1, ops, wide_ctx)
     if op == "**":
+        # recorded findings: ** with a signed base or exponent (negative exponent rules, signed base
+        # in the JIT lowering); both operands are made unsigned with `{}`
         y = gen_amount_operand(rng, ports)
+        if expr_signed(y, ports):
+            y = ("cat", [y])
+        if expr_signed(x, ports):
+            x = ("cat", [x])
     elif op in SHIFT:
         y = gen_amount_operand(rng, ports) if rng.random() < 0.5 else ("var", rng.randrange(len(ports)))
     else:
@@ -917,6 +934,35 @@ def gen_wide_core_module(rng, idx, n_out=6):
     return m
 
 
+def gen_signed_shift_module(rng, idx):
+    """a signed operand shifted by amounts at and around its width (sign fill boundary):
+    >>> / >> / <<< by width-1, width, width+1, 0, 1, 63, 64, 65 (literals) and by a small port"""
+    w = rng.choice([2, 8, 33, 63, 64, 65, 100, 127, 128] if rng.random() < 0.6 else [129, 191, 192, 193, 200, 256, 300])
+    pw = rng.choice([7, 9, 10, 16])
+    # the amount is an unsigned magnitude even when its type is signed (and its MSB set)
+    ports = [Port("p0", w, True), Port("p1", pw, rng.random() < 0.5)]
+    cand = [0, 1, 63, 64, 65, w - 1, w, w + 1, w - 64, w + 64, 127, 128, 129,
+            (1 << (pw - 1)), (1 << (pw - 1)) | 1, (1 << pw) - 1, (1 << pw) - 2]
+    cand = [c for c in cand if 0 <= c < 512]
+    outs, exprs = [], []
+    for k in range(6):
+        op = rng.choice([">>>", ">>>", ">>", ">>", "<<<", "<<"])
+        y = ("var", 1) if k < 3 else ("lit", 10, False, rng.choice(cand))
+        outs.append(Port("o%d" % k, rng.choice([w, w, w + 1, max(1, w - 1), min(300, w + 64)]), False))
+        exprs.append(("bin", op, ("var", 0), y))
+    m = ExprModule("M%d" % idx, ports, outs, exprs)
+    m.kind = "signedshift"
+    m.amounts = cand
+    return m
+
+
+def gen_signed_shift_vectors(rng, m, n):
+    w = m.ports[0].width
+    mk = (1 << w) - 1
+    vals = [mk, 1 << (w - 1), (1 << (w - 1)) | 1, mk ^ 1, (1 << (w - 1)) - 1, rng.getrandbits(w) | (1 << (w - 1)), rng.getrandbits(w)]
+    return [[rng.choice(vals) & mk, rng.choice(m.amounts) & ((1 << m.ports[1].width) - 1)] for _ in range(n)]
+
+
 def gen_narrow_shift_module(rng, idx, n_out=6):
     """operand and result at most 128 bits wide, shift amount of a much wider type with values up
     to 2^300: the engines must treat any amount >= the width as a full shift"""
@@ -1145,3 +1191,45 @@ let () =
     done
   with End_of_file -> ()
 """
+
+
+# ------------------------------------------------------------------------------------------------
+# line runner that survives a harness that aborts (a panic inside an extern "C" helper aborts the process)
+# ------------------------------------------------------------------------------------------------
+def run_lines_robust(binary, lines, env=None, timeout=900, max_crashes=40, nshards=None):
+    """like C.run_lines, but when the process dies the lines already answered are kept, the line it
+    died on is reported as `CRASH ...` and the rest continues in a fresh process (at most
+    max_crashes times per shard; after that the remaining lines are `NOTRUN`)."""
+    from .. import common as C
+    from concurrent.futures import ThreadPoolExecutor
+    if not lines:
+        return []
+    n = nshards or min(C.NCPU, max(1, len(lines) // 50))
+    size = (len(lines) + n - 1) // n
+    shards = [lines[i:i + size] for i in range(0, len(lines), size)]
+
+    def work(sh_lines):
+        out = []
+        rest = list(sh_lines)
+        crashes = 0
+        while rest:
+            rc, o, e = C.sh([binary], inp="\n".join(rest) + "\n", timeout=timeout, env=env)
+            got = o.splitlines()
+            if len(got) >= len(rest):
+                out.extend(got[:len(rest)])
+                break
+            out.extend(got)
+            tail = e.strip().splitlines()[-1][:160] if e.strip() else ""
+            out.append("CRASH rc=%d %s" % (rc, tail))
+            rest = rest[len(got) + 1:]
+            crashes += 1
+            if crashes >= max_crashes:
+                out.extend(["NOTRUN"] * len(rest))
+                break
+        return out
+
+    res = []
+    with ThreadPoolExecutor(max_workers=C.NCPU) as ex:
+        for r in ex.map(work, shards):
+            res.extend(r)
+    return res
